@@ -39,7 +39,7 @@ func init() {
 		Required:      []string{"regex:matches", "regex:replace", "regex:invalid-constant-rejected", "cache:seq", "cache:reset-observed", "cache:failed-load-retried", "cache:concurrent", "cache:overlapping-loads", "cache:swapped-global", "cache:observer-samples"},
 		Families: []Family{
 			witnessFamily("C16"),
-			{Name: "regex", N: tierN(60000, 900000), Run: c16Regex},
+			{Name: "regex", N: tierN(150000, 2000000), Run: c16Regex},
 			{Name: "cacheseq", N: func(string) int { return 5 * 4 }, Run: c16CacheSeq},
 			{Name: "cacheconc", N: tierN(2500, 60000), Run: c16CacheConc},
 			{Name: "global", N: tierN(300, 5000), Run: c16Global},
